@@ -541,6 +541,38 @@ fn semantic_cases(lay: &Layout) -> Vec<DiagCase> {
             }
         }
     }
+    // errors of the expansion machinery itself: the nesting limit (a chain of 135 macros, so that the error is
+    // raised deep inside and handed up through more than 128 uses), direct and mutual recursion, recursion
+    // closed below a few proper levels, an unknown macro used three levels down
+    {
+        let mut defs: Vec<String> = vec!["macro c0(a) -> inc a <-".to_string()];
+        for k in 1..135 {
+            defs.push(format!("macro c{}(a) -> c{}(a) <-", k, k - 1));
+        }
+        defs.push("macro r(a) -> inc a r(a) <-".to_string());
+        defs.push("macro p(a) -> q(a) <-".to_string());
+        defs.push("macro q(a) -> inc a p(a) <-".to_string());
+        defs.push("macro d3(a) -> inc a q(a) <-".to_string());
+        defs.push("macro d2(a) -> d3(a) <-".to_string());
+        defs.push("macro d1(a) -> dec a d2(a) <-".to_string());
+        defs.push("macro u3(a) -> nomacro(a) <-".to_string());
+        defs.push("macro u2(a) -> u3(a) <-".to_string());
+        defs.push("macro u1(a) -> u2(a) <-".to_string());
+        for (class, line) in [("macro nesting limit", "c134(ax)"), ("macro nesting limit", "c129(ax)"), ("recursive macro", "r(ax)"), ("recursive macro", "p(ax)"), ("recursive macro", "d1(ax)"), ("unknown macro", "u1(ax)"), ("macro nesting limit", "c5(bx) c134(ax)")] {
+            for tail in [0usize, 2] {
+                let mut lines: Vec<String> = defs.clone();
+                lines.push("start:".to_string());
+                lines.push("inc cx".to_string());
+                let pos = lines.len();
+                lines.push(line.to_string());
+                for _ in 0..tail {
+                    lines.push("stc".to_string());
+                }
+                let (text, map) = lay_out(&lines, lay);
+                out.push(DiagCase { site: format!("semantic in macro / {}", class), text, tok_off: None, sem_lines: vec![map[pos + 1]], what: format!("{:?} as canonical line {}", line, pos + 1), must_be_at_token: false });
+            }
+        }
+    }
     // data-side errors at first / last data line
     for (class, line) in [("constant out of range", "db 256"), ("constant out of range", "dw [70000]"), ("duplicate label", "bv: db 9")] {
         for pos in [0usize, 2] {
